@@ -573,6 +573,9 @@ def build_fn(repo, file, path, opts, as_item=False):
         bc = match_brace(bm0, bo)
         if L.get("block"):
             po = bo                                   # a plain block expression `{ .. }`
+            ma = re.search(r"\basync\s*$", bm0[mm.start():bo])
+            if ma:
+                po = mm.start() + ma.start()          # `async { .. }` (its .await was removed by R6)
             end = bc + 1
         elif L.get("closure_arg"):
             po = mm.start()                           # a closure literal passed as an argument
